@@ -24,6 +24,7 @@ type Profile struct {
 	BoundedSets          bool // generate sets with max 2/3 and min 1
 	FancyNames           bool // column/table names that need case handling
 	ScalarBias           int  // extra weight for scalar columns (index-heavy profiles)
+	ImmutableWeak        bool // allow immutable weak-reference columns (known finding otherwise excluded)
 }
 
 var (
@@ -220,6 +221,13 @@ func genCol(t *rapid.T, p Profile, name string, tables []string) Col {
 	}
 	if p.Immutable && rapid.IntRange(0, 9).Draw(t, "immutable") == 0 {
 		c.Immutable = true
+		// known finding (weak-prune-immutable): pruning a dangling weak reference from an
+		// immutable column is refused by the implementation; excluded by construction
+		weak := (c.Key.Ref != nil && c.Key.Ref.Weak) || (c.Value != nil && c.Value.Ref != nil && c.Value.Ref.Weak)
+		if weak && !p.ImmutableWeak {
+			c.Immutable = false
+			Label("generator", "excluded_known:weak-prune-immutable")
+		}
 	}
 	if p.Ephemeral && rapid.IntRange(0, 9).Draw(t, "ephemeral") == 0 {
 		c.Ephemeral = true
